@@ -768,7 +768,16 @@ func formatterTailMismatch(p *packages.Package, fo *types.Func) (string, token.P
 						bad = true
 						return cur
 					}
-					cur = emit(cur, format[k+2:], true)
+					// the verb: flags (#+- 0), width digits, then one letter
+					j := k + 1
+					for j < len(format) && strings.ContainsRune("#+- 0123456789.", rune(format[j])) {
+						j++
+					}
+					if j >= len(format) {
+						bad = true
+						return cur
+					}
+					cur = emit(cur, format[j+1:], true)
 					continue
 				}
 				if sel, ok := call.Fun.(*ast.SelectorExpr); ok && len(call.Args) == 1 {
@@ -788,7 +797,9 @@ func formatterTailMismatch(p *packages.Package, fo *types.Func) (string, token.P
 				bad = true
 				return cur
 			case *ast.IfStmt:
-				if x.Init != nil || usesElem(x.Cond) {
+				// a condition on the element (utf8.ValidRune(r), r < 0x80) has elements on both sides: both branches are paths
+				_ = usesElem
+				if x.Init != nil {
 					bad = true
 					return cur
 				}
